@@ -172,6 +172,8 @@ def run(ctx):
             ctx.violation(vd.split(":", 1)[1], c, "ok", vd)
     ctx.sample({"flow": "B", "case": cases[0], "verdict": verdicts[1]})
     ctx.sample({"flow": "B", "case": {"kind": "acc", "src": cases[-1]["src"], "k": cases[-1]["k"]}, "verdict": verdicts[len(cases)]})
+    from vlib import apalache
+    ctx.notes["unbounded_lemmas"] = apalache.lemmas(["Ind_Shift"], ctx)     # successor/predecessor inversion for every order (4^(k-1) symbolic)
     ctx.assumptions += ["TLC's 32-bit integers restrict the orders to k <= 13 in Flow B",
                         "conformance of the code is established on the enumerated and seeded cases, not for all inputs"]
     return {"scope": {"KMax": kmax, "flowB_arith": nar}}
